@@ -50,7 +50,9 @@ def evidence(c):
         distinct_nontrivial=len(c['fps']),
         rule=('one evaluation = one execution of a generated plan (2-4 caller threads x 1-9 library calls with literal arguments and attached '
               'faults, drawn from the whole exported API by family) under one seeded schedule, compared call by call with the same plan run '
-              'thread by thread alone; plus one solo pass per plan in which the library\'s .data/.bss are compared around every call. '
+              'thread by thread alone; plus one solo pass per plan in which the library\'s .data/.bss are compared around every call (S), and one more '
+              'solo pass per plan in which the library\'s per-thread state (its thread-local block, values under keys it created) is renewed before '
+              'every call and every call must give what it gave in the plain solo pass (H: nothing carried from call to call inside a thread). '
               'distinct_nontrivial = number of distinct schedule fingerprints (hash of plan and of the sequence of context switches in '
               'task-relative coordinates, event index bucketed by 16) among executions in which at least one context switch landed strictly '
               'inside a library call; counted as the union over all workers'),
@@ -76,6 +78,7 @@ def evidence(c):
         library_functions_never_entered=unreached_funcs,
         lowest_covered_functions=sorted(((round(100.0 * h / t), f, h, t) for f, (h, t) in percov.items() if t >= 8 and h > 0), key=lambda x: x[0])[:25],
         footprint_ops_in_solo_pass=st.get('footprint_ops', 0),
+        calls_compared_with_renewed_thread_state=st.get('carry_ops', 0),
         digest_mismatches=st.get('mismatches', 0),
         unstable_candidates=st.get('unstable', 0) + len(c['batch'].unstable),
         solo_crashes=len(c['solo_crashes']),
